@@ -80,6 +80,15 @@ def replay(ctx):
     return ctx.finish("model_checking", {"evaluations": 2, "distinct_nontrivial": 0}, [])
 
 
+def soft(ctx, msg, observed=None):
+    """A self-check of the machinery failed. Without any observed violation the run is inconclusive; once violations were
+    observed they are reported (exit 1) and the failed self-check becomes a NOTE: exit 2 must never hide a detection."""
+    if ctx.failures or observed:
+        ctx.notes.append("self-check failed (violations are reported all the same): " + msg)
+        return
+    raise core.Inconclusive(msg)
+
+
 def run(ctx):
     pc.java_tmp(ctx)
     if ctx.replay:
@@ -103,13 +112,15 @@ def run(ctx):
            "witness_lines": wit["witness_lines"]}
     records, inputs_table = [], {}
     findings = []
+    hung = {}
     if info["mode"] == "overlay":
         args = ["-seed", str(ctx.seed), "-random", "2" if quick else "40", "-per-site", "3" if quick else "16",
                 "-rot-cap", "3" if quick else "8"]
         out = pc.run_jobs(ctx, "c03-explore", jobs, args=args, parallel=14, timeout=2400)
-        hung = sorted(r["job"] for r in out if r.get("kind") == "timeout")
-        if hung:
-            raise core.Inconclusive("runs of %s did not return (watchdog)" % hung)
+        hung = {}
+        for r in out:
+            if r.get("kind") == "timeout":
+                hung.setdefault(r["job"], r.get("sched"))
         totals = [r for r in out if r.get("kind") == "total"]
         summaries = [r for r in out if r.get("kind") == "job"]
         findings = [r for r in out if "site" in r]
@@ -137,6 +148,45 @@ def run(ctx):
                 findings.append({"job": j["id"], "site": "unscheduled", "class": "ir" if a["ir"] != b["ir"] else "files", "sched": None,
                                  "keys": "", "detail": {}, "mode": "repetition", "confirmed": True})
 
+    # A run that did not return (per-run watchdog) ends the exploration of its entry. It is an OBSERVATION, not a reason to give up:
+    # probe the entry under a few schedules in separate processes (canonical, language loop reversed, every site reversed, two
+    # random ones) and compare the outcomes, "did not return" being one of them.
+    hang_findings = []
+    if info["mode"] == "overlay" and hung:
+        os.environ["VERIF_RUN_TIMEOUT"] = os.environ.get("VERIF_HANG_PROBE_TIMEOUT", "25")
+        all_sites = [s_["id"] for s_ in info["sites"]]
+        probes = [("canonical", None), ("language-loop-reversed", {"reverse": [pc.LANGLOOP_SITE]}), ("every-site-reversed", {"reverse": all_sites}),
+                  ("random-1", {"random": ctx.seed * 31 + 1}), ("random-2", {"random": ctx.seed * 31 + 2})]
+        pjobs = []
+        for jid in sorted(hung):
+            for pname, sc in probes:
+                j = dict(by_id[jid], id="%s|%s" % (jid, pname))
+                if sc:
+                    j["sched"] = sc
+                pjobs.append(j)
+        pres = {r["id"]: r for r in pc.run_jobs(ctx, "pipe-run", pjobs, parallel=len(pjobs), timeout=1200, max_timeouts=10 ** 6)}
+        os.environ.pop("VERIF_RUN_TIMEOUT", None)
+        for jid in sorted(hung):
+            obs = {}
+            for pname, sc in probes:
+                r = pres.get("%s|%s" % (jid, pname))
+                obs[pname] = "not-run" if r is None else ("did-not-return" if r.get("timeout") else json.dumps(r["outcome"], sort_keys=True))
+            kinds = set(obs.values()) - {"not-run"}
+            hangs = sorted(k for k, v in obs.items() if v == "did-not-return")
+            if len(kinds) > 1:
+                site = pc.LANGLOOP_SITE if obs["canonical"] != obs["language-loop-reversed"] else "several-sites"
+                cls = "termination" if hangs else "files"
+                what = "%s: the run returns under some schedules and not under others (did not return: %s)" % (jid, hangs) if hangs else \
+                       "%s: schedules give different outcomes (one exploration run did not return)" % jid
+            else:
+                site, cls = "every-schedule", "termination"
+                what = "%s: cog does not return under any of %d schedules (a corpus entry that terminates on the reference tree)" % (jid, len(probes))
+            sched = dict(probes)[hangs[0]] if hangs else dict(probes)["language-loop-reversed"]
+            hang_findings.append({"job": jid, "site": site, "class": cls, "sched": sched, "keys": "", "mode": "hang-probe", "confirmed": True,
+                                  "detail": {"observed": {k: (v if len(v) < 40 else "returned") for k, v in obs.items()}, "first_difference": what}})
+        findings += hang_findings
+        runs += len(pjobs)
+
     failing_jobs = [s["job"] for s in summaries if s.get("err")]
     for s in summaries:
         j = by_id[s["job"]]
@@ -151,14 +201,15 @@ def run(ctx):
         tlc_bad_jobs.add(records[f["l"] - 1]["inputs"][0])
         for pr in f["pairs"]:
             if "Deterministic" not in pr["violated"]:
-                raise core.Inconclusive("PipelineTrace reported %s on a determinism corpus" % pr["violated"])
+                soft(ctx, "PipelineTrace reported %s on a determinism corpus" % pr["violated"], findings)
     go_bad_jobs = {s["job"] for s in summaries if s["distinct_outcomes"] > 1}
     if tlc_bad_jobs != go_bad_jobs:
-        raise core.Inconclusive("TLC and the worker disagree on which corpus entries are non-deterministic: %s vs %s"
-                                % (sorted(tlc_bad_jobs), sorted(go_bad_jobs)))
+        soft(ctx, "TLC and the worker disagree on which corpus entries are non-deterministic: %s vs %s"
+                  % (sorted(tlc_bad_jobs), sorted(go_bad_jobs)), findings)
     found_jobs = {f["job"] for f in findings}
+    cov["entries_with_a_run_that_did_not_return"] = sorted(hung) if info["mode"] == "overlay" else []
     if not go_bad_jobs <= found_jobs:
-        raise core.Inconclusive("non-deterministic entries without an attributed finding: %s" % sorted(go_bad_jobs - found_jobs))
+        soft(ctx, "non-deterministic entries without an attributed finding: %s" % sorted(go_bad_jobs - found_jobs), findings)
 
     # witness class of a finding: the input features (TLC's shape features) that every annotated corpus entry showing it
     # has in common - "the two case-equal default keys", "the colliding definition names" ... A defect that shows on entries
@@ -171,7 +222,8 @@ def run(ctx):
     groups = {}
     for f in findings:
         if not f.get("confirmed", True):
-            raise core.Inconclusive("difference at %s not reproducible (baseline unstable?)" % f["site"])
+            soft(ctx, "difference at %s not reproducible (baseline unstable?)" % f["site"], [x for x in findings if x.get("confirmed", True)])
+            continue
         groups.setdefault((f["site"], f["class"]), []).append(f)
     for (site, cls), fs in sorted(groups.items()):
         annotated = [by_id[f["job"]] for f in fs if by_id[f["job"]].get("source") in (None, "sink")]
@@ -200,13 +252,13 @@ def run(ctx):
         _, _ = pc.validate_trace(ctx, [good[0]], inputs_table, strict=True)
         rbad, _ = pc.validate_trace(ctx, [good[0], bad], inputs_table, strict=True, allow_violation=True)
         if not rbad["violated"]:
-            raise core.Inconclusive("binding self-test: a corrupted record was accepted by PipelineTrace (Strict)")
+            soft(ctx, "binding self-test: a corrupted record was accepted by PipelineTrace (Strict)")
         cov["binding_selftest"] = "PipelineTrace(Strict) accepts a genuine record and rejects its copy with one file hash changed"
 
     # vacuity
     nontrivial = sum(1 for s in summaries if s.get("permuted_occurrences", 0) > 0)
     if info["mode"] == "overlay" and permuted == 0:
-        raise core.Inconclusive("no dynamic map-range occurrence with two or more keys was permuted")
+        soft(ctx, "no dynamic map-range occurrence with two or more keys was permuted")
     dyn_sites = sorted(sites_seen)
     static_ids = {s["id"] for s in info["sites"]}
     cov.update({
